@@ -4,6 +4,7 @@ CONSTANT MaxChars = 2
 INVARIANT EolInsignificant
 INVARIANT IndentInsignificant
 INVARIANT FrameInsignificant
+INVARIANT BlankLinesInsignificant
 INVARIANT AlwaysOK
 ACTION_CONSTRAINT Emit
 CHECK_DEADLOCK FALSE
